@@ -639,7 +639,7 @@ func ssaDeclKey(f *ssa.Function) string {
 		return ""
 	}
 	_, rn := recvTypeName(o)
-	return o.Pkg().Path() + "\t" + rn + "\t" + o.Name()
+	return pinnedDeclKey(o.Pkg().Path() + "\t" + rn + "\t" + o.Name())
 }
 
 func ruleR18k(c *Ctx, r *Report) {
